@@ -443,7 +443,7 @@ def _shaping_plans(plans, feats):
     return out
 
 
-def _compare_reorder(r, label, data, rnd, perms, n_random, extra=_extra_observables):
+def _compare_reorder(r, label, data, rnd, perms, n_random, extra=_extra_observables, lazy_modes=(None,)):
     """Reorder `data` by `perms` permutations and compare every HarfBuzz observable by name."""
     from fontTools.ttLib.reorderGlyphs import reorderGlyphs
 
@@ -473,8 +473,9 @@ def _compare_reorder(r, label, data, rnd, perms, n_random, extra=_extra_observab
     if "VVAR" in before and before["VVAR"].table.AdvHeightMap is None:
         implicit_var.add("v_advance")
 
-    def one(new, touch):
-        font = _open(data)
+    def one(new, touch, lazy=None):
+        from fontTools.ttLib import TTFont
+        font = TTFont(io.BytesIO(data), lazy=lazy)
         if touch:
             font["CFF2"].cff.topDictIndex[0].CharStrings
         try:
@@ -511,9 +512,11 @@ def _compare_reorder(r, label, data, rnd, perms, n_random, extra=_extra_observab
                 fails.append(("%r differ by name after reordering" % (bad,), None))
         return fails
 
-    for new in _permutations(order, rnd, perms):
-        r.case((label, tuple(new[1:4])))
-        fails = one(new, False)
+    for new, lazy in [(n_, l_) for n_ in _permutations(order, rnd, perms) for l_ in lazy_modes]:
+        r.case((label, tuple(new[1:4]), lazy))
+        fails = one(new, False, lazy)
+        if lazy is not None:
+            fails = [("(TTFont lazy=%r) %s" % (lazy, m), k) for m, k in fails]
         if fails and "CFF2" in before:
             # CFF2 only: the TopDict (and its name -> charstring index map) is built lazily from
             # font.getGlyphOrder(); if that first happens after setGlyphOrder the charstrings keep
@@ -743,7 +746,7 @@ def reorder_generated_every_lookup_type(tier, rnd):
     n = 0
     for i in range(n_fonts):
         data, fea = _layout_font(rnd, kern_table=bool(i % 2))
-        n = _compare_reorder(r, "generated#%d%s" % (i, "+kern" if i % 2 else ""), data, rnd, perms, n_random)
+        n = _compare_reorder(r, "generated#%d%s" % (i, "+kern" if i % 2 else ""), data, rnd, perms, n_random, lazy_modes=(None, True, False))
     r.sample({"fonts": n_fonts, "permutations_each": perms, "shaping_runs_per_font": n, "feature_file_tail": fea[-300:]})
     return r
 
